@@ -574,7 +574,7 @@ fn ip_sweep_one(cfg: &Arc<Cfg>, ip_index: usize, order: usize, out: &mut Partial
         for v in tmp.violations {
             out.violation(
                 format!("{}/address-class/{}", v.key, if bep42_valid(&[0xEE; 20], ip) { "exempt" } else { "public" }),
-                format!("{} [family of five ids on {ip}, add order {:?}, after add #{}]", v.desc, perm, step + 1),
+                format!("{} [family of six ids on {ip}, add order {:?}, after add #{}]", v.desc, perm, step + 1),
                 json!({"ip_sweep": ip_index, "order": order}),
             );
         }
